@@ -48,7 +48,7 @@ func TestVerifStress(t *testing.T) {
 		var dupExit, panics, stale, wrongKey, lostAccepted atomic.Int64
 		var accepted sync.Map // value -> true when its Set returned true
 		var deadline sync.Map // value -> expiration instant (sweep phase only)
-		var early atomic.Int64
+		var early, getCalls atomic.Int64
 		var sweepPhase atomic.Bool
 		cfg := &Config[uint64, uint64]{
 			NumCounters:        []int64{2, 64, 1 << 12}[rng.Intn(3)],
@@ -127,6 +127,7 @@ func TestVerifStress(t *testing.T) {
 					case call < 30:
 						name = "Get"
 						t0 := time.Now()
+						getCalls.Add(1)
 						if v, ok := c.Get(k); ok {
 							if kk, has := valKey.Load(v); !has || kk.(uint64) != k {
 								if wrongKey.Add(1) == 1 {
@@ -238,6 +239,7 @@ func TestVerifStress(t *testing.T) {
 						case 1:
 							c.Del(uint64(1000 + lr.Intn(4000)))
 						case 2:
+							getCalls.Add(1)
 							c.Get(uint64(1000 + lr.Intn(4000)))
 						default:
 							v := next.Add(1)
@@ -274,6 +276,14 @@ func TestVerifStress(t *testing.T) {
 				t.Fatalf("hang in sweep phase")
 			}
 			sweepPhase.Store(false) // Close below releases everything through OnEvict
+		}
+		if c.Metrics != nil {
+			// every Get is counted at most once by the Get-side batching (kept or dropped), whatever the lag of the
+			// policy goroutine; Metrics.Clear only lowers the counters
+			if kd := c.Metrics.GetsKept() + c.Metrics.GetsDropped(); kd > uint64(getCalls.Load()) {
+				fmt.Printf("stress getscount: round %d: GetsKept+GetsDropped=%d exceeds the %d Get calls made\n", r, kd, getCalls.Load())
+				t.Fail()
+			}
 		}
 		close(stopWatch)
 		c.Close()
